@@ -46,17 +46,17 @@ Proof. exact parse_date_format_lemma. Qed.
 Print Assumptions parse_date_format.
 
 (* in a $topdir trash directory the Path is relative to the top directory and joins back to the
-   canonical location; `top`, `top/rest` are os.path.realpath results *)
+   canonical location; `top` and `top_prefix top ++ rest` are os.path.realpath results; the top
+   directory may be "/" (top_ok) *)
 Theorem orig_loc_relative : forall path top rest base,
-  basename (normpath path) = base -> starts_with base [c_slash] = false ->
-  ends_with top [c_slash] = false -> top <> [] ->
+  basename (normpath path) = base -> starts_with base [c_slash] = false -> top_ok top ->
   (orig_loc_result path top top RelativePaths = base
    /\ join2 top (orig_loc_result path top top RelativePaths) = join2 top base)
   /\
   (rest <> [] -> starts_with rest [c_slash] = false ->
-   orig_loc_result path (top ++ [c_slash] ++ rest) top RelativePaths = join2 rest base
+   orig_loc_result path (top_prefix top ++ rest) top RelativePaths = join2 rest base
    /\ isabs (join2 rest base) = false
-   /\ join2 top (join2 rest base) = join2 (top ++ [c_slash] ++ rest) base).
+   /\ join2 top (join2 rest base) = join2 (top_prefix top ++ rest) base).
 Proof. exact orig_loc_relative_lemma. Qed.
 Print Assumptions orig_loc_relative.
 
@@ -75,8 +75,7 @@ Proof. split; [eexists; vm_compute; reflexivity | split; vm_compute; [reflexivit
 Example c03_encode_fails_on_surrogate : quote [97; 56448] = None.
 Proof. reflexivity. Qed.
 
-(* ---- the pinned code with top directory "/" : the Path written into /.Trash-$uid stays absolute.
-   top <> "/" is exactly what orig_loc_relative's `ends_with top "/" = false` excludes. ---- *)
-Example orig_loc_relative_refuted_root_topdir :
-  isabs (orig_loc_result ($"/x/y") ($"/x") ($"/") RelativePaths) = true.
+(* ---- the top directory "/" (fixed in /repo by "fix: entries trashed into /.Trash-$uid ...") ---- *)
+Example orig_loc_relative_root_topdir :
+  orig_loc_result ($"/x/y") ($"/x") ($"/") RelativePaths = $"x/y".
 Proof. vm_compute. reflexivity. Qed.
